@@ -375,7 +375,7 @@ def r3_4(ctx: Ctx) -> None:
     for name in ("random.seed", "np.random.seed"):
         marks = [n for n in g.nodes if any(unparse(c.func) == name for c in node_calls(n))]
         p = g.path_avoiding(rets, lambda e: False, blocked_nodes={m.id for m in marks}) if marks else []
-        ok = bool(marks) and p is None and all(unparse(c.args[0]) == unparse(r.ast.value) for m in marks for c in node_calls(m) if unparse(c.func) == name for r in rets)
+        ok = bool(marks) and p is None and all(bool(c.args) and unparse(c.args[0]) == unparse(r.ast.value) for m in marks for c in node_calls(m) if unparse(c.func) == name for r in rets)
         ctx.record("R3.4", ctx.key(srs, f"{name}(seed) on every seeded path"), srs.loc(), ok,
                    f"every path returning a seed calls {name} with that seed" if ok else f"a seed can be returned without {name}", path_text(p) if p else None)
     init = ix.method("PrimaiteGymEnv.__init__")
